@@ -108,6 +108,7 @@ def step (s : St) (args : List String) : St × String × String :=
     match decInt now with
     | some n => doUpdate s n true
     | none => (s, "bad-op", "bad-op")
+  | ["race2"] => (s, "mon=ok", "mon=ok")  -- a clock reading just before a period boundary vs the refresh of that boundary: Go-side monitor
   | ["race"] => (s, "mon=ok", "mon=ok")   -- refresh vs update stream: judged by the Go-side monitor only
   | ["stale"] =>
     let o := if applies s then bracket (sortStrs (staleEntries s)) else "na"
